@@ -25,6 +25,31 @@ DOCUMENTED = [
 ARITY = {"atan2": 2, "ldexp": 2, "scalbn": 2, "scalbln": 2, "pow": 2, "hypot": 2, "fmod": 2,
          "remainder": 2, "remquo": 3, "copysign": 2, "nextafter": 2, "nexttoward": 2, "fdim": 2,
          "fmax": 2, "fmin": 2, "fma": 3, "nan": 1}
+# C++ side only: the <cmath> functions whose result is an integer type (arithmetic on the result follows integer rules)
+CPP_INT_RESULT = {"ilogb", "lround", "llround", "lrint", "llrint"}
+
+
+def cpp_call(event, cname, args):
+    """The C++ meaning of std::<cname>(args) as the compiler sees it: arity and parameter kinds are checked against the
+    <cmath> signature (a call no overload accepts is ill-typed), integer-returning functions yield an int."""
+    n = canonical(cname)
+    bare = cname[5:] if cname.startswith("std::") else cname
+    if bare in DOCUMENTED or n in DOCUMENTED:
+        want = ARITY.get(bare, ARITY.get(n, 1))
+        if bare in NON_NUMERIC_SIGNATURE:
+            raise IllTypedCall(f"std::{bare} takes {'an int* third argument' if bare == 'remquo' else 'a const char*'}: no overload accepts numeric arguments {len(args)}")
+        if len(args) != want:
+            raise IllTypedCall(f"std::{bare} called with {len(args)} argument(s); <cmath> declares {want}")
+    r = apply(event, cname, args)
+    if n in CPP_INT_RESULT:
+        return Num("int", z3.ToInt(real(r)))
+    return r
+
+
+class IllTypedCall(Exception):
+    pass
+
+
 # functions that cannot be called with plain numeric arguments from a query (pointer/string
 # parameters in C): they are in the documented list but no numeric call exists to compare.
 NON_NUMERIC_SIGNATURE = {"remquo", "nan"}
